@@ -29,7 +29,7 @@ RULE = (
     "one case = one seeded fetch session through the loop-back server: source DAG (merges, ghost parents), pre-populated "
     "target sub-DAG, direction (remote source: graph queries, pull/fetch/search_missing; remote target: push/fetch), search "
     "depth of the client's get_parent_map recipes, 1-5 client operations inside one lock of the remote repository, seeded "
-    "segmentation; every search recipe that reaches the server is judged; non-trivial = at least one judged recipe had a "
+    "segmentation; in 35% of the plans another process fills one of the source's ghosts on the server in the middle of the client's session; every search recipe that reaches the server is judged; non-trivial = at least one judged recipe had a "
     "non-empty exclude set; distinct = distinct event-log digests of such runs"
 )
 COMPONENTS = {
@@ -39,7 +39,7 @@ COMPONENTS = {
         "InterRepository.search_missing_revision_ids (_walk_to_common_revisions and the generic path), RepoFetcher, Branch.pull/push, vcsgraph Graph + Rust breadth-first searcher on both sides",
         "server: SmartServerRepositoryRequest.recreate_search / recreate_search_from_recipe, SmartServerRepositoryGetParentMap, SmartServerRepositoryGetStream(_1.19), insert_stream handlers; real smart client/server media and protocol v3 over SimPipe",
     ],
-    "simulated": ["both disks", "the connection (seeded segmentation, short reads)", "lockdir clock"],
+    "simulated": ["both disks", "the connection (seeded segmentation, short reads)", "lockdir clock", "scheduling of the second process that fills a ghost on the server (released at a request boundary, then pre-empted at every store operation)"],
     "stub": [
         "UI",
         "bzr+sim:// URL scheme -> loop-back medium; the server's insert_stream worker thread runs synchronously; lock info files carry pid 1 / virtual start time (wiresim pins)",
@@ -54,7 +54,10 @@ ASSUMPTIONS = [
     "oracle per recipe that reaches recreate_search_from_recipe: (a) the server did not answer NoSuchRevision from the count check; (b) recipe count == number of keys the server's walk included, also with "
     "discard_excess=True; (c) included ∩ present-on-server == intended ∩ present-on-server; 'null:' is left out of the set comparison (it is a key of every graph and never a revision) but is part of (b)",
     "end to end: after a fetch/pull/push the receiving repository holds exactly (what it had) ∪ (the present ancestry of the requested tip), every revision readable and equal to the model",
-    "ghosts are parent ids that are present nowhere (ghost filling between the client's search and the server's walk is not exercised); no stacking",
+    "ghosts are parent ids that are present nowhere, except in the ghost-fill runs (35% of the plans): there ANOTHER process fetches one ghost revision into the served repository once the client has cached it as "
+    "missing - either completely between two get_parent_map requests (mode boundary) or as a second actor released at that request boundary and then interleaved with the client's server-side work by the seeded "
+    "scheduler at every store operation (mode actor); the per-recipe oracle is unchanged (the server must still replay every recipe to exactly the client's seen set and never answer NoSuchRevision; every call completes); "
+    "the end-to-end sets may then lie between the state before and after the fill; these runs use the shipped depth-limited recipe builder (depth >= 2), not search_result_from_parent_map, which omits ghosts from the stop keys by design; no stacking",
     "searches of kind 'ancestry-of' / 'everything' do not go through recreate_search_from_recipe and are only counted",
 ]
 ISOLATION = "fork"
@@ -106,7 +109,62 @@ def gen_history(rng):
     return mh, specs, tips
 
 
+def _descendants(mh, rid):
+    return sorted(r for r in mh.revs if rid in mh.ancestry(r))
+
+
+def gen_fill_plan(rng, tier):
+    """A session in which ANOTHER process fills one of the source's ghosts on the server
+    between two of the client's get_parent_map requests."""
+    for _ in range(50):
+        mh, specs, tips = gen_history(rng)
+        ghosts = sorted({p for s in specs for p in s["parents"] if p.startswith("ghost-")})
+        if ghosts and len(specs) >= 7:
+            break
+    else:
+        return None
+    # prefer a ghost high above the root: the walk has to go on (more requests) after it was learnt as missing
+    depth_of = {g: len(mh.ancestry(next(s["id"] for s in specs if g in s["parents"]))) for g in ghosts}
+    ghost = rng.choices(ghosts, [depth_of[g] ** 2 for g in ghosts])[0]
+    child = next(s["id"] for s in specs if ghost in s["parents"])
+    above = _descendants(mh, child)  # walking down from these reaches the ghost
+    ids = [s["id"] for s in specs]
+    ops = []
+    for _ in range(rng.randint(2, 5)):
+        k = rng.choices(["ancestry", "unique", "difference", "missing", "pull", "fetch", "parent_map", "heads"], [5, 2, 2, 2, 3, 1, 1, 1])[0]
+        op = {"op": k}
+        if k in ("parent_map", "heads"):
+            op["keys"] = sorted({rng.choice(above), rng.choice(ids)})
+        elif k in ("unique", "difference"):
+            op["a"] = rng.choice(above)
+            op["b"] = sorted({rng.choice(ids) for _ in range(rng.randint(1, 2))})
+        else:
+            op["rev"] = rng.choice(above)
+        ops.append(op)
+    gspec = gen_spec(rng, MHist(), ghost, [], 1_400_000_000, nchanges=1)
+    return {
+        "fmt": rng.choice(storesim.FORMATS),
+        "src": specs,
+        "pre": sorted({rng.choice(ids) for _ in range(rng.choice([0, 0, 1, 2]))}),
+        "dir": "pull",
+        # the shipped recipe builder (limited_search_result_from_parent_map); depth 0 selects
+        # search_result_from_parent_map, which leaves ghosts out of the stop keys by design
+        "depth": rng.choice([100, 100, 100, 2, 3, 5]),
+        "ops": ops,
+        "no_extra": rng.random() < 0.85,
+        "relock": False,
+        "fill": {"ghost": ghost, "spec": gspec, "extra": rng.choice([0, 0, 0, 1]), "mode": rng.choice(["boundary", "actor"])},
+        "server": rng.choice(["pipe", "socket"]),
+        "client_read": rng.choice(["atmost", "greedy"]),
+        "seg": {"m": rng.choice(["hot", "rand", "whole", "whole"]), "ph": 0.2, "sh": rng.random() < 0.5, "s": rng.randrange(1 << 30)},
+    }
+
+
 def generate(rng, tier):
+    if rng.random() < 0.35:
+        plan = gen_fill_plan(rng, tier)
+        if plan is not None:
+            return plan
     fmt = rng.choice(storesim.FORMATS)
     mh, specs, tips = gen_history(rng)
     ids = [s["id"] for s in specs]
@@ -187,6 +245,7 @@ class Monitor:
         self.server = []  # records in arrival order
         self.judged = 0
         self.nontrivial = False
+        self.fill = None  # {"ghost": bytes, "extra": n, "trigger": fn, "triggered": bool, "done": bool}
 
     @staticmethod
     def key(start, exclude, count):
@@ -194,6 +253,15 @@ class Monitor:
 
     # -- client side ----------------------------------------------------------------------
     def on_client_recipe(self, repo, recipe):
+        f = self.fill
+        if f is not None and not f["triggered"] and f["ghost"] in repo._unstacked_provider.missing_keys:
+            # an RPC boundary at which the client already knows the ghost as missing
+            if f["extra"] > 0:
+                f["extra"] -= 1
+            else:
+                f["triggered"] = True
+                self.sim.probe("ghost_fill_triggered")
+                f["trigger"]()
         start, exclude, count = recipe[1], recipe[2], recipe[3]
         pm = repo._unstacked_provider.get_cached_map() or {}
         intended = walk(lambda k: pm.get(k), start, exclude)
@@ -202,6 +270,7 @@ class Monitor:
             "intended": intended,
             "cached": len(pm),
             "missing": sorted(repo._unstacked_provider.missing_keys),
+            "after_fill": bool(f is not None and f["done"]),
         }
         self.sim.probe("client_parent_map_recipes")
         if pm:
@@ -259,6 +328,8 @@ class Monitor:
             via = c["via"] if c else "unknown"
             desc = f"{where}: {r['verb']} (client: {via}) recipe start={_l(r['start'])} exclude={_l(r['exclude'])} count={r['count']} discard_excess={r['discard_excess']}"
             sim.event("recipe", r["verb"], via, len(r["start"]), len(r["exclude"]), r["count"], len(r["included"]), r["error"])
+            if c is not None and c.get("after_fill") and self.fill["ghost"] in set(c["missing"]):
+                sim.probe("recipes_judged_after_ghost_was_filled")
             sim.state_seen((r["verb"], via, min(len(r["start"]), 3), min(len(r["exclude"]), 3), bool(r["error"]), r["discard_excess"], NULL in r["included"]))
             if r["error"] is not None:
                 sim.fail(
@@ -410,6 +481,40 @@ def execute(sim, plan):
     served = url_s if direction == "pull" else url_t
     ww = wiresim.WireWorld(sim, get_transport(served), server=plan.get("server", "pipe"), server_read="atmost", client_read=plan.get("client_read", "atmost"), seg=plan.get("seg"), name="r")
     mon = sim.c33 = Monitor(sim)
+    fill = plan.get("fill")
+    mh_hi = mh  # the model once the ghost has been filled
+    state = {"client_done": False}
+    if fill:
+        # the revision that is a ghost in S exists in somebody else's repository G
+        url_g = world.new_store("g")
+        storesim.commit_specs(storesim.make_branch(url_g + "br", fmt), [fill["spec"]])
+        storesim.clear_caches()
+        mh_hi = replay_model(plan["src"] + [fill["spec"]])
+
+        def do_fill():
+            # another process: own objects, direct access to the served repository
+            if state["client_done"]:
+                return
+            sim.event("filler", "start")
+            storesim.open_repo(url_s + "br").fetch(storesim.open_repo(url_g + "br"), revision_id=_b(fill["ghost"]))
+            mon.fill["done"] = True
+            sim.event("filler", "done")
+            sim.probe("ghost_filled_on_server")
+
+        def filler_body():
+            sim.sleep(1_000_000.0)  # parked until the monitor releases it at an RPC boundary (or the client is done)
+            do_fill()
+
+        def trigger():
+            if fill["mode"] == "actor" and "filler" in sim.actors:
+                a = sim.actors["filler"]
+                if a.state == "sleeping":
+                    a.state = "runnable"  # from here on the seeded scheduler interleaves it at every store operation
+                    a.wake = sim.clock
+            else:
+                do_fill()  # the whole fetch happens between two requests of the client
+
+        mon.fill = {"ghost": _b(fill["ghost"]), "extra": fill.get("extra", 0), "trigger": trigger, "triggered": False, "done": False}
     old_depth = remote._DEFAULT_SEARCH_DEPTH
     remote._DEFAULT_SEARCH_DEPTH = plan["depth"]
     old_extra = smart_repo.SmartServerRepositoryGetParentMap.no_extra_results
@@ -428,90 +533,110 @@ def execute(sim, plan):
             with r.lock_read():
                 return {x.decode() for x in r.all_revision_ids()}
 
-        take_lock()
-        try:
+        def session():
+          take_lock()
+          try:
             for i, op in enumerate(plan["ops"]):
-                k = op["op"]
-                where = f"op {i} {k}"
-                before = recv_revs() if k in ("pull", "push", "fetch", "fetch_ghosts") else None
-                failed = None
+                  k = op["op"]
+                  where = f"op {i} {k}"
+                  before = recv_revs() if k in ("pull", "push", "fetch", "fetch_ghosts") else None
+                  failed = None
+                  try:
+                      g = rrepo.get_graph()
+                      if k in ("heads", "tgt_heads"):
+                          keys = [_b(x) for x in op["keys"]]
+                          known = rrepo.get_parent_map(keys)
+                          sim.event(k, sorted(g.heads([x for x in keys if x in known] or [NULL])))
+                      elif k in ("parent_map", "tgt_parent_map"):
+                          sim.event(k, sorted(rrepo.get_parent_map([_b(x) for x in op["keys"]]).items()))
+                      elif k == "unique":
+                          sim.event(k, sorted(g.find_unique_ancestors(_b(op["a"]), [_b(x) for x in op["b"]])))
+                      elif k == "difference":
+                          left, right = g.find_difference(_b(op["a"]), _b(op["b"][0]))
+                          sim.event(k, sorted(left), sorted(right))
+                      elif k == "ancestry":
+                          sim.event(k, sorted(x for x, _ in g.iter_ancestry([_b(op["rev"])])))
+                      elif k in ("missing", "missing_limit", "missing_ghosts"):
+                          res = lb.repository.search_missing_revision_ids(rrepo, revision_ids=[_b(op["rev"])], find_ghosts=(k == "missing_ghosts"), limit=op.get("limit"))
+                          keys = set(res.get_keys())
+                          sim.event(k, sorted(keys))
+                          have = recv_revs()
+                          want = mh.ancestry(op["rev"]) - have
+                          want_hi = mh_hi.ancestry(op["rev"]) - have  # what is missing once the ghost has been filled
+                          got = {x.decode() for x in keys}
+                          if k != "missing_limit" and not (got == want or (fill and want <= got <= want_hi)):
+                              sim.fail("missing_set", ["missing_set", k], f"{where}: search_missing_revision_ids({op['rev']}) found {sorted(got)}, the source has {sorted(want)} that the target lacks")
+                          if k == "missing_limit" and (not got <= want or len(got) != min(op["limit"], len(want))):
+                              sim.fail("missing_set", ["missing_set", k], f"{where}: limited search found {sorted(got)} (limit {op['limit']}); missing in target: {sorted(want)}")
+                      elif k == "pull":
+                          lb.pull(rb, overwrite=True, stop_revision=_b(op["rev"]))
+                      elif k == "push":
+                          lb.push(rb, overwrite=True, stop_revision=_b(op["rev"]))
+                      elif k in ("fetch", "fetch_ghosts"):
+                          if direction == "pull":
+                              lb.repository.fetch(rrepo, revision_id=_b(op["rev"]), find_ghosts=(k == "fetch_ghosts"))
+                          else:
+                              rrepo.fetch(lb.repository, revision_id=_b(op["rev"]), find_ghosts=(k == "fetch_ghosts"))
+                      else:
+                          raise AssertionError(k)
+                  except (errors.BzrError, errors.InternalBzrError) as e:
+                      if sim.violation is not None:
+                          raise sim.violation from None
+                      failed = e
+                  except Exception as e:  # noqa: BLE001 - dromedary errors are not BzrErrors
+                      if sim.violation is not None:
+                          raise sim.violation from None
+                      if type(e).__module__.startswith(("dromedary", "breezy", "bzrformats", "vcsgraph")):
+                          failed = e
+                      else:
+                          raise
+                  mon.judge(where)
+                  if failed is not None:
+                      sim.fail("operation_failed", ["operation_failed", k, type(failed).__name__], f"{where} {op} raised {type(failed).__name__}: {str(failed)[:500]} although every recipe was consistent")
+                  if before is not None:
+                      after = recv_revs()
+                      want = before | (mh.ancestry(op["rev"]) & present_s)
+                      want_hi = before | (mh_hi.ancestry(op["rev"]) & (present_s | {fill["ghost"]})) if fill else want
+                      if after != want and not (fill and want <= after <= want_hi):
+                          sim.fail(
+                              "transferred",
+                              ["transferred", k, "extra" if after - want else "missing"],
+                              f"{where} {op}: receiving repository now has {sorted(after)}, expected {sorted(want)}: extra {sorted(after - want)} missing {sorted(want - after)}",
+                          )
+                      sim.probe("fetches")
+                      if after != before:
+                          sim.probe("fetches_transferring")
+                  if plan.get("relock") and i + 1 < len(plan["ops"]):
+                      rb.unlock()
+                      take_lock()
+          finally:
+              try:
+                  rb.unlock()
+              except Exception:  # noqa: BLE001
+                  if sim.violation is None:
+                      raise
+
+        if fill and fill["mode"] == "actor":
+            def client_body():
                 try:
-                    g = rrepo.get_graph()
-                    if k in ("heads", "tgt_heads"):
-                        keys = [_b(x) for x in op["keys"]]
-                        known = rrepo.get_parent_map(keys)
-                        sim.event(k, sorted(g.heads([x for x in keys if x in known] or [NULL])))
-                    elif k in ("parent_map", "tgt_parent_map"):
-                        sim.event(k, sorted(rrepo.get_parent_map([_b(x) for x in op["keys"]]).items()))
-                    elif k == "unique":
-                        sim.event(k, sorted(g.find_unique_ancestors(_b(op["a"]), [_b(x) for x in op["b"]])))
-                    elif k == "difference":
-                        left, right = g.find_difference(_b(op["a"]), _b(op["b"][0]))
-                        sim.event(k, sorted(left), sorted(right))
-                    elif k == "ancestry":
-                        sim.event(k, sorted(x for x, _ in g.iter_ancestry([_b(op["rev"])])))
-                    elif k in ("missing", "missing_limit", "missing_ghosts"):
-                        res = lb.repository.search_missing_revision_ids(rrepo, revision_ids=[_b(op["rev"])], find_ghosts=(k == "missing_ghosts"), limit=op.get("limit"))
-                        keys = set(res.get_keys())
-                        sim.event(k, sorted(keys))
-                        have = recv_revs()
-                        want = mh.ancestry(op["rev"]) - have
-                        got = {x.decode() for x in keys}
-                        if k != "missing_limit" and got != want:
-                            sim.fail("missing_set", ["missing_set", k], f"{where}: search_missing_revision_ids({op['rev']}) found {sorted(got)}, the source has {sorted(want)} that the target lacks")
-                        if k == "missing_limit" and (not got <= want or len(got) != min(op["limit"], len(want))):
-                            sim.fail("missing_set", ["missing_set", k], f"{where}: limited search found {sorted(got)} (limit {op['limit']}); missing in target: {sorted(want)}")
-                    elif k == "pull":
-                        lb.pull(rb, overwrite=True, stop_revision=_b(op["rev"]))
-                    elif k == "push":
-                        lb.push(rb, overwrite=True, stop_revision=_b(op["rev"]))
-                    elif k in ("fetch", "fetch_ghosts"):
-                        if direction == "pull":
-                            lb.repository.fetch(rrepo, revision_id=_b(op["rev"]), find_ghosts=(k == "fetch_ghosts"))
-                        else:
-                            rrepo.fetch(lb.repository, revision_id=_b(op["rev"]), find_ghosts=(k == "fetch_ghosts"))
-                    else:
-                        raise AssertionError(k)
-                except (errors.BzrError, errors.InternalBzrError) as e:
-                    if sim.violation is not None:
-                        raise sim.violation from None
-                    failed = e
-                except Exception as e:  # noqa: BLE001 - dromedary errors are not BzrErrors
-                    if sim.violation is not None:
-                        raise sim.violation from None
-                    if type(e).__module__.startswith(("dromedary", "breezy", "bzrformats", "vcsgraph")):
-                        failed = e
-                    else:
-                        raise
-                mon.judge(where)
-                if failed is not None:
-                    sim.fail("operation_failed", ["operation_failed", k, type(failed).__name__], f"{where} {op} raised {type(failed).__name__}: {str(failed)[:500]} although every recipe was consistent")
-                if before is not None:
-                    after = recv_revs()
-                    want = before | (mh.ancestry(op["rev"]) & present_s)
-                    if after != want:
-                        sim.fail(
-                            "transferred",
-                            ["transferred", k, "extra" if after - want else "missing"],
-                            f"{where} {op}: receiving repository now has {sorted(after)}, expected {sorted(want)}: extra {sorted(after - want)} missing {sorted(want - after)}",
-                        )
-                    sim.probe("fetches")
-                    if after != before:
-                        sim.probe("fetches_transferring")
-                if plan.get("relock") and i + 1 < len(plan["ops"]):
-                    rb.unlock()
-                    take_lock()
-        finally:
-            try:
-                rb.unlock()
-            except Exception:  # noqa: BLE001
-                if sim.violation is None:
-                    raise
+                    session()
+                finally:
+                    state["client_done"] = True
+
+            sim.spawn("client", client_body)
+            sim.spawn("filler", filler_body)
+            sim.run_actors()
+            for name in ("client", "filler"):
+                if sim.actors[name].exc is not None:
+                    raise sim.actors[name].exc
+        else:
+            session()
+            state["client_done"] = True
         mon.judge("end")
         storesim.clear_caches()
         r = storesim.open_repo(recv_url + "br")
         with r.lock_read():
-            prob = storesim.readable(r, mh, None)
+            prob = storesim.readable(r, mh_hi, None)
         if prob:
             sim.fail("readable", ["readable", direction], prob)
     finally:
